@@ -214,24 +214,104 @@ def _rhr_traces(rng, n):
 
 def traces(target, rng, tier):
     kind = target.params["kind"]
-    n = 14 if tier == "quick" else 100
+    n = 10 if tier == "quick" else 80
     if kind.startswith("tx"):
         return _tx_traces(rng, n, kind == "tx_full")
     return _rhr_traces(rng, n)
 
 
 # ---------------------------------------------------------------------------------------------
+# R alphabets (stand-in configuration), one list of packed input words per group of FSM states
+def _tx_word(hdr=0, gen=0, d=0, v=0, last=0, ready=0):
+    return hdr | (gen << 128) | (d << 129) | (v << 161) | (last << 165) | (ready << 166)
+
+
+def _tx_headers():
+    return dict(
+        data5=_hdr128(0x00000008, 0x00050000, 0x11223344, (3 << 16) | (1 << 26)),       # data header, seq 3, deferred
+        zlp=_hdr128(0x00000008, 0x00000000, 0x00000003, 5 << 16),                       # data header (used for the ZLP)
+        delayed=_hdr128(0x00000008, 0x00050000, 0x00000000, (1 << 16) | (1 << 25)),     # data header marked delayed
+        tp=_hdr128(0x00000004, 0xA5A5A5A5, 0x00000001, 7 << 16),                        # transaction packet: no DPP
+        rsvd24=_hdr128(0x00000018, 0x00010000, 0x00000000, 2 << 16),                    # type 24: dw0[0:4] = 8 -> DPP is sent
+    )
+
+
+def _tx_alpha(tier):
+    H = _tx_headers()
+    A, P, Q = 0x00050008, 0x00000137, 0xA1B2C3D4
+    idle = [_tx_word()] + [_tx_word(hdr=h, gen=1, ready=r) for h in H.values() for r in (0, 1)] + \
+           [_tx_word(hdr=H["data5"], gen=0, d=A, v=15, ready=1)]
+    hdr = [_tx_word(ready=0), _tx_word(ready=1), _tx_word(hdr=H["tp"], gen=1, d=P, v=15, last=1, ready=1)]
+    dw3 = [_tx_word(ready=r, d=A, v=v, last=l) for r in (0, 1) for v, l in ((0, 0), (15, 0), (1, 1))]
+    masks = (15, 7, 3, 1) if tier != "quick" else (15, 3, 1)
+    pay = [_tx_word(ready=0, d=A, v=15)] + \
+          [_tx_word(ready=1, d=d, v=15, last=0) for d in (A, Q)] + \
+          [_tx_word(ready=1, d=d, v=v, last=1) for d in (P, Q) for v in masks] + \
+          [_tx_word(ready=1, d=A, v=0, last=0), _tx_word(ready=0, d=P, v=7, last=1)]
+    tail = [_tx_word(ready=0), _tx_word(ready=1), _tx_word(ready=1, d=Q, v=15, last=1, gen=1, hdr=H["zlp"])]
+    return [("IDLE", idle), ("SEND_HPSTART/DW0..2", hdr), ("SEND_DW3", dw3), ("START_DPP/SEND_PAYLOAD", pay),
+            ("SEND_LAST_WORD/SEND_CRC/FINISH_DPP/ABORT_DPP", tail)]
+
+
+def _rhr_word(d, c, v, e): return d | (c << 32) | (v << 36) | (e << 37)
+
+
+def _rhr_alpha(tier):
+    c0 = crc5(3)                       # link control word 3: sequence number 3
+    A, Z = 0x00050008, 0x00000008      # byte checksums 1 and 0
+    T = 2 | (3 << 16) | (c0 << 27)     # dw3 for headers with word checksum 2 (A A A, A Z Z ...), seq 3
+    Tb = 1 | (3 << 16) | (c0 << 27)    # wrong CRC-16 field
+    T5 = 2 | (3 << 16) | ((c0 ^ 1) << 27)   # wrong CRC-5
+    es = (3, 4)
+    wait = [_rhr_word(HP, 15, 1, e) for e in es] + [_rhr_word(HP, 15, 0, 3), _rhr_word(HP, 14, 1, 3), _rhr_word(A, 0, 1, 3)]
+    dw = [_rhr_word(A, 0, 1, 3), _rhr_word(Z, 0, 1, 3), _rhr_word(HP, 15, 1, 4), _rhr_word(A, 0, 0, 3)]
+    dw3 = [_rhr_word(T, 0, 1, 3), _rhr_word(Tb, 0, 1, 3), _rhr_word(T5, 0, 1, 3), _rhr_word(T, 0, 0, 3)]
+    chk = [_rhr_word(HP, 15, 1, 3), _rhr_word(HP, 15, 1, 4), _rhr_word(A, 0, 0, 3), _rhr_word(A, 0, 0, 4)]
+    return [("WAIT_FOR_HPSTART", wait), ("RECEIVE_DW0", dw), ("RECEIVE_DW1", dw), ("RECEIVE_DW2", dw[:2] + dw[3:]),
+            ("RECEIVE_DW3", dw3), ("CHECK_PACKET", chk)]
+
+
+def _coq_lists(table): return " ".join("[" + "; ".join(str(x) for x in ws) + "]" for _, ws in table)
+
+
 def obligations(targets, tier):
     obs = []
     for t in targets:
         kind = t.params["kind"]
         U = "drx_real_units" if kind.endswith("full") else "drx_stub_units"
+        if kind == "tx_stub":
+            tab = _tx_alpha(tier)
+            obs.append(tie_dep.rlock_dep(
+                "ob_tx_stub", t, St="rtx_state", mstep=f"rtx_step {U}", enc="rtx_enc", dec="rtx_dec", wf="rtx_wf",
+                dec_enc="rtx_dec_enc", wf_step=f"rtx_wf_step {U} drx_stub_bounded", m0=f"rtx_init {U}",
+                wf_m0="apply rtx_wf_init; exact drx_stub_bounded.", alpha="rtx_alpha " + _coq_lists(tab), fuel=5000,
+                describe="RawPacketTransmitter (stand-in CRC units) == model on all traces whose input word of each cycle is in the list "
+                         "of that cycle's FSM state group (" + ", ".join(f"{n}: {len(ws)} words" for n, ws in tab) + "): 5 headers "
+                         "(data, ZLP, delayed, transaction, reserved type 24), every ready value, payload words with every byte-valid "
+                         "mask/last combination incl. contract-violating ones"))
+        if kind == "rhr_stub":
+            tab = _rhr_alpha(tier)
+            obs.append(tie_dep.rlock_dep(
+                "ob_rhr_stub", t, St="rhr_state", mstep=f"rhr_step {U}", enc="rhr_enc", dec="rhr_dec", wf="rhr_wf",
+                dec_enc="rhr_dec_enc", wf_step=f"rhr_wf_step {U} drx_stub_bounded", m0=f"rhr_init {U}",
+                wf_m0="apply rhr_wf_init; exact drx_stub_bounded.", alpha="rhr_alpha " + _coq_lists(tab), fuel=5000,
+                describe="RawHeaderPacketReceiver (stand-in CRC unit) == model on all traces whose input word of each cycle is in the "
+                         "list of that cycle's FSM state (" + ", ".join(f"{n}: {len(ws)}" for n, ws in tab) + "): valid/invalid words, "
+                         "good / wrong CRC-16 / wrong CRC-5 fourth words, matching and non-matching expected sequence numbers"))
         if kind.startswith("tx"):
+            spec = "crc16_hdr crc32_usb" if kind.endswith("full") else "drx_stub_h16 drx_stub_c32"
+            obs.append(tie.cmon(f"spec_{t.name}", t, mon=f"(rtx_spec_mon {spec})", m0="0",
+                                describe="the wire specification as runtime oracle on simulator traces of the real code: in every cycle of a "
+                                         "transaction source.valid = 1, the presented word is word k of `wire` (for the header given at "
+                                         "generate and the beats the unit accepted), and done accompanies exactly the last word"))
             obs.append(tie.corr(f"corr_{t.name}", t, mstep=f"rtx_step {U}", m0=f"rtx_init {U}",
-                                describe=f"RawPacketTransmitter ({'real' if kind.endswith('full') else 'stand-in'} CRC units) vs model"))
+                                describe=f"RawPacketTransmitter ({'real' if kind.endswith('full') else 'stand-in'} CRC units) vs model: "
+                                         "closed-loop transactions (payload lengths 0..40 incl. every tail, ZLP, delayed, non-data headers, "
+                                         "ready probabilities 1/0.8/0.5/0.25) and arbitrary input noise"))
         else:
             obs.append(tie.corr(f"corr_{t.name}", t, mstep=f"rhr_step {U}", m0=f"rhr_init {U}",
-                                describe=f"RawHeaderPacketReceiver ({'real' if kind.endswith('full') else 'stand-in'} CRC unit) vs model"))
+                                describe=f"RawHeaderPacketReceiver ({'real' if kind.endswith('full') else 'stand-in'} CRC unit) vs model: "
+                                         "random headers, CRC corruption, sequence mismatches, invalid words, truncated headers"))
     return obs
 
 
@@ -243,6 +323,30 @@ def tie_theorem_names(targets, tier):
     return []
 
 
-LEVEL_TEXT = "in progress"
-LEVEL_NOTE = "in progress"
-TECHNIQUE = "in progress"
+LEVEL_TEXT = ("Machine-checked proof about code-shaped models of RawPacketTransmitter and RawHeaderPacketReceiver (parametric in the CRC "
+              "units).  (1) For every header, every payload presented under the data_sink stream contract (any length, every tail, the "
+              "zero-length packet, delayed) and EVERY source.ready pattern, the transmitter's source outputs and `done` are, cycle by cycle, the "
+              "wire specification played against the ready pattern (C36_framing; invariant over the closed loop, induction over the trace): "
+              "each word is held until accepted, words are neither lost nor repeated, `done` is raised exactly once with the last word "
+              "(C36_accepted_words, C36_done_once).  The wire specification is declarative -- SHP^3 EPF, dw0..dw2, crc16|link control|crc5, "
+              "SDP^3 EPF, the symbol stream payload ++ crc32 ++ END^3 EPF cut into words (or EDB^3 EPF) -- and is proved equal to the "
+              "word-by-word form the FSM produces (C36_wire_word_by_word).  (2) Round trip: RawHeaderPacketReceiver's model recovers exactly the "
+              "transmitted header from the five header words with arbitrary invalid words interleaved (C36_header_roundtrip); the "
+              "DataPacketReceiver specification of C40 run over the transmitted words yields beats carrying exactly the payload and then `good` "
+              "(C36_data_roundtrip).  (3) The netlists of both modules regenerated from /repo (stand-in CRC units) are proved equal to the "
+              "models on all traces over per-state input alphabets (certified product reachability).")
+LEVEL_NOTE = ("Trusted: Coq kernel + vm_compute, Amaranth elaboration, nir2coq.py/Netlist.v and harness/C36_split.py (the netlist has a word-level "
+              "combinational cycle source.data[27:32] <- crc5(source.data[16:27]) that is acyclic per bit; the offending AssignmentList cell is "
+              "split at its assignment boundaries before printing) -- validated each run against pysim.  Netlist ties are for the modules' "
+              "own code with stand-in CRC units and explicit per-state input alphabets (headers: data / ZLP / delayed / transaction / reserved "
+              "type 24; all ready values; payload beats incl. contract-violating ones); real CRC kernels are C30's theorems; the complete "
+              "modules with real CRCs and full-width random data are covered by correspondence and by the wire-specification monitor on "
+              "simulator traces, not by proof.  Not proved: that every data_sink beat is consumed exactly once is only implied by the wire "
+              "equality (the payload bytes appear on the wire in order, once); the composition 'netlist closed loop = wire' is the conjunction "
+              "of the R tie (netlist = model) and C36_framing (model = wire), not a single theorem.  The data round trip goes through C40's "
+              "specification, i.e. the property-satisfying receiver (the unchanged DataPacketReceiver code violates C40).  Observation: the "
+              "transmitter decides 'data header' on dw0[0:4], the receiver on dw0[0:5]; they differ only for the reserved type 24.")
+TECHNIQUE = ("Rocq proof: closed-loop invariant relating the FSM state to the remaining wire words (unbounded traces, all ready patterns), "
+             "byte-level equality of the word-wise and symbol-stream wire formats, progress invariant for the header receiver, reuse of C40's "
+             "parser specification for the data round trip; certified product-reachability lock-step against the regenerated netlists over "
+             "state-dependent alphabets; simulator correspondence + wire-specification monitor")
